@@ -191,8 +191,8 @@ type scenario struct {
 	names      []string // hook names, index h-1
 	keys       map[int]string
 	arrivals   chan *Attempt
-	held       []*Attempt  // per hook: the request currently held
-	accepted   [][]obsMsg  // per hook
+	held       []*Attempt // per hook: the request currently held
+	accepted   [][]obsMsg // per hook
 	accounted  map[string]int
 	modes      []string // per endpoint, as scripted
 	auto       bool
